@@ -90,6 +90,15 @@ fn put_spans_and_labels(
         let rsjsonnet_lang::span::SpanContext::Source(src_id) = *span_mgr.get_context(span_ctx);
         let snippet = src_mgr.get_file_snippet(src_id);
         let (line, col) = snippet.src_pos_to_line_col(span_start);
+        // A span made only of zero-width characters (byte order mark, combining
+        // marks, ...) has no columns to underline: annotate its position instead.
+        let span_end = if span_end > span_start
+            && snippet.src_pos_to_line_col(span_end) == (line, col)
+        {
+            span_start
+        } else {
+            span_end
+        };
 
         by_src
             .entry(src_id)
